@@ -214,6 +214,16 @@ class Eval:
         if isinstance(r, bool) and op in ("==", "!="):
             want = r if op == "==" else (not r)
             return lift((lambda e: nzb(e)) if want else (lambda e: bnot(e)), l)
+        if isinstance(r, E) and op in (">", ">=", "<", "<=") and r.sign == Z:
+            # the sign of an entry against 0 (abs(a) > 0 is a != 0)
+            def f0(e):
+                s = e.sign if isinstance(e, E) else (ONE if e is True else Z if e is False else TOP)
+                s = signs.pos(s)
+                if s not in (Z, P, N):
+                    return None
+                v = {Z: 0, P: 1, N: -1}[s]
+                return {">": v > 0, ">=": v >= 0, "<": v < 0, "<=": v <= 0}[op]
+            return lift(f0, l)
         if isinstance(r, E) and op in (">", ">=", "<", "<=") and r.sign in (Z, ONE):
             # comparisons of a 0/1-valued entry with 0 or 1
             def f(e):
@@ -340,7 +350,12 @@ class Eval:
         if name == "copy":
             return x
         if name == "astype" and args:
-            tgt = args[0][1] if args[0][0] == "extref" else None
+            tgt = args[0][1] if args[0][0] in ("extref", "const") else None
+            tgt = str(tgt).split(".")[-1].rstrip("_") if tgt is not None else None
+            if tgt in ("int64", "int32", "int16", "int8", "intp", "uint8", "uint16", "uint32", "uint64", "intc", "longlong"):
+                tgt = "int"
+            if tgt in ("float64", "float32", "double", "longdouble", "float16", "single"):
+                tgt = "float"
             if tgt in ("bool",):
                 return lift(lambda e: b2e(nzb(e)), x)
             if tgt in ("int", "float"):
@@ -380,6 +395,19 @@ class Eval:
                 return WHERE(x, PS(nzb(a), nzb(b)))
             if isinstance(x, (V, I)):
                 return WHERE(x, None)
+        if d == "numpy.where" and len(args) == 3:
+            c_, a_, b_ = self.ev(args[0]), self.ev(args[1]), self.ev(args[2])
+
+            def sel3(c, a, b):
+                c = nzb(c)
+                a = a if isinstance(a, E) else b2e(a)
+                b = b if isinstance(b, E) else b2e(b)
+                if c is True:
+                    return E(a.sign)
+                if c is False:
+                    return E(b.sign)
+                return E(a.sign) if a.sign == b.sign else E(TOP)
+            return lift(sel3, c_, a_, b_)
         if d in ("set", "list", "tuple", "frozenset", "numpy.array", "numpy.asarray", "sorted", "iter") and len(args) == 1:
             x = self.ev(args[0])
             if isinstance(x, (I, PS, MAP, LISTOF, M, V)):
